@@ -105,7 +105,7 @@ pub fn start_server(settings: Settings, index: Arc<Index>, origin: Option<&str>,
       eprintln!("server.run failed: {e}");
     }
   });
-  let port = rx.recv_timeout(Duration::from_secs(30)).expect("server did not report its port");
+  let port = rx.recv_timeout(Duration::from_secs(180)).expect("server did not report its port");
   Running { port, handle, thread: Some(thread) }
 }
 
@@ -127,7 +127,7 @@ pub fn client() -> reqwest::blocking::Client {
     .no_brotli()
     .no_proxy()
     .redirect(reqwest::redirect::Policy::none())
-    .timeout(Duration::from_secs(30))
+    .timeout(Duration::from_secs(120))
     .build()
     .unwrap()
 }
@@ -451,7 +451,7 @@ fn realize(plan: &[InsSpec], sats: bool, scratch: &Path) -> World {
   }
   let flags = Flags { sats, addr: false, tx: true, ins: true, runes: false };
   let ix = env::open(&node, scratch, flags, &[], false);
-  match env::update(&ix, Duration::from_secs(60)) {
+  match env::update(&ix, Duration::from_secs(300)) {
     env::UpdateOutcome::Ok => {}
     _ => panic!("index update failed"),
   }
